@@ -36,7 +36,8 @@ def gen_cfg(r, tier, estimator="keyed"):
     elif r.random() < 0.08:
         # long three-dimensional histories in the coarsening versions 1 / 2: several lmax-raising extends by different regions while
         # earlier raisers are left behind (the same level vector moves from the second to the third diagonal of the scheme)
-        cfg.update(dim=3, a=[0.0, 0.0, 0.0], b=[1.0, 1.0, r.choice([1.0, 2.0])], lmin=1, lmax=2, version=r.choice([1, 2]), nref=1, single_dim=False,
+        lm = r.choice([1, 2, 2])
+        cfg.update(dim=3, a=[0.0, 0.0, 0.0], b=[1.0, 1.0, r.choice([1.0, 2.0])], lmin=lm, lmax=lm + r.choice([1, 1, 2]), version=r.choice([1, 1, 2]), nref=1, single_dim=False,
                    automatic=r.random() < 0.3, margin=r.choice([0.9, 1.0]), p_zero=0.0, p_tie=0.0, mode="mix", recalc=None,
                    evals=r.randint(6, 9 if tier == "quick" else 12), max_leaves=400, max_points=6000, long_3d=True)
     return cfg
@@ -76,6 +77,10 @@ def make_local_grid(cfg):
     name = cfg.get("grid", "TrapezoidalGrid")
     if name == "TrapezoidalGrid":
         return G.TrapezoidalGrid(a=a, b=b, boundary=cfg["boundary"])
+    if name == "MixedGrid":
+        # tensor grid of 1-D families chosen per dimension, each with its own boundary flag
+        kinds = {"Trapezoidal": G.TrapezoidalGrid1D, "Simpson": G.SimpsonGrid1D, "ClenshawCurtis": G.ClenshawCurtisGrid1D}
+        return G.MixedGrid(a=a, b=b, grids=[kinds[k](a=a[d], b=b[d], boundary=bool(bd)) for d, (k, bd) in enumerate(cfg["mixed"])])
     if name == "LagrangeGrid2":
         return G.LagrangeGrid(a=a, b=b, boundary=True, p=2)
     if name == "GaussLegendreGrid":
